@@ -127,7 +127,16 @@ def clause_media(prog, rep):
                     continue
                 builder_covers_params(prog, rep, b, "HKDF context")
                 w = arg_wiring(prog, f, bc)
-                rep.check(len(set(x for x in w if not x.startswith(("const", "call")))) >= 3 and any(x.startswith("call") for x in w), "param-coverage", "HKDF-context/arguments",
+                direct = False
+                if "p" in c.args[1]:
+                    # the same fact read off the deriving function itself (the builder may be a method of a small struct holding the
+                    # four values, or written inline): the info bytes depend on the scheme label and on the hash, MIME type and file
+                    # name parameters
+                    dep, dcalls, _ = f.depends_on(c.args[1]["p"][0])
+                    pn = set((f.local_name(l) or "") for l in dep if 1 <= l <= f.nargs)
+                    direct = (any("hash" in x for x in pn) and any("mime" in x for x in pn) and any("filename" in x or "file_name" in x for x in pn)
+                              and any(x.name == "get_scheme_label" or any(t.name == "get_scheme_label" for t in prog.call_targets(x)) for x in dcalls))
+                rep.check(direct or (len(set(x for x in w if not x.startswith(("const", "call")))) >= 3 and any(x.startswith("call") for x in w)), "param-coverage", "HKDF-context/arguments",
                           "context arguments: %s" % w, "the HKDF context is not fed with the scheme label, hash, MIME type and file name: %s" % w, bc.loc())
                 # input keying material is the exporter secret parameter
                 hk = [x for x in f.live_calls() if x.name == "new" and "Hkdf" in (x.self_ty or x.path or "")]
